@@ -131,6 +131,24 @@ def r71(ctx, fx, et):
                 v = not v
             res = v
         return res
+    # the truth of the condition: every comparison of the evaluated condition is `!= 0` / `== 0` (any non-zero value selects the `if` block, negative ones too)
+    cond_vals = set()
+    for n in lib.hwalk(arm["body"]):
+        if n.get("k") in ("letx", "let") and "init" in n and any(x.get("k") == "mcall" and str(x.get("name", "")).startswith("evaluate_expression")
+                                                              for x in lib.hwalk(n["init"])):
+            cond_vals |= {q["name"] for q in lib.hwalk(n["pat"]) if q.get("k") == "bind"}
+    key = "%s|If|truth-is-nonzero" % et.path
+    cmps = [n for n in lib.hwalk(arm["body"]) if n.get("k") == "binary" and n.get("op") in ("Lt", "Le", "Gt", "Ge", "Eq", "Ne") and
+            any(lib.hpath(lib.strip(n[side])) in cond_vals for side in ("l", "r"))]
+    ctx.inst(rid, key, sample={"condition_value": sorted(cond_vals), "comparisons": len(cmps)})
+    if not cond_vals or not cmps:
+        ctx.fail_closed(rid, "the comparison of the `.if` condition's value was not found")
+    for n in cmps:
+        d = lib.hdesc(n)
+        if not (d[0] in ("Ne", "Eq") and ("c", 0) in d[1:]):
+            ctx.finding(rid, key, "the condition of `.if` is tested with `%s` instead of `!= 0`: a condition that evaluates to another value than that test expects — a "
+                        "negative difference used as `not equal`, say — selects the `else` block although it is not zero" % n.get("op"),
+                        "%s:%s" % (et.file, n.get("ln")))
     ems = emissions(arm["body"], fx)
     seen = {"if": 0, "else": 0}
     for call, var, conds, dummy in ems:
